@@ -9,7 +9,9 @@ Toks == {1, 2, 3}
 VARIABLE i
 Clause(def, x) ==
   LET acc == Accepts(def, x.inst, Toks) IN
-  IF acc /\ x.verdict # 1 THEN "RejectsSplittableInstance"
+  IF x.oneside = 1 THEN     \* registered operations: def keeps only the segment structure (constraints "any"), so only "no split exists => rejected" is claimed
+     (IF ~acc /\ x.verdict = 1 THEN "AcceptsInstanceWithoutValidSplit" ELSE "ok")
+  ELSE IF acc /\ x.verdict # 1 THEN "RejectsSplittableInstance"
   ELSE IF ~acc /\ x.verdict = 1 THEN "AcceptsInstanceWithoutValidSplit"
   ELSE IF x.built = 1 /\ x.verdict # 1 THEN "ConstructorBuiltOperationVerifies"
   ELSE IF acc /\ x.oacc # <<>> /\ x.oacc # Segments(def.ops, def.oopt, Len(x.inst.ops), x.inst.osz, x.inst.hasosz = 1) THEN "AccessorsReturnDeclaredSegments"
